@@ -4,8 +4,17 @@ use super::super::plan::*;
 use super::super::prng::Rng;
 use std::collections::BTreeMap;
 
-pub const KEY_TYPES: [&str; 7] = ["ecdsa-p256", "ecdsa-p384", "ecdsa-p521", "ed25519", "ed448", "rsa2048", "rsa4096"];
-pub const CHEAP_KEY_TYPES: [&str; 5] = ["ecdsa-p256", "ecdsa-p384", "ecdsa-p521", "ed25519", "ed448"];
+pub const KEY_TYPES: [&str; 7] = [
+	"ecdsa-p256",
+	"ecdsa-p384",
+	"ecdsa-p521",
+	"ed25519",
+	"ed448",
+	"rsa2048",
+	"rsa4096",
+];
+pub const CHEAP_KEY_TYPES: [&str; 5] =
+	["ecdsa-p256", "ecdsa-p384", "ecdsa-p521", "ed25519", "ed448"];
 
 /// weighted key type: RSA kept rare for cost (rsa2048 ~3 %, rsa4096 only if `allow_4096`)
 pub fn key_type(rng: &mut Rng, allow_4096: bool) -> String {
@@ -89,14 +98,36 @@ pub fn dns_name(rng: &mut Rng, exotic: bool) -> String {
 }
 
 pub fn ipv4(rng: &mut Rng) -> String {
-	format!("{}.{}.{}.{}", rng.range(1, 223), rng.below(256), rng.below(256), rng.range(1, 254))
+	format!(
+		"{}.{}.{}.{}",
+		rng.range(1, 223),
+		rng.below(256),
+		rng.below(256),
+		rng.range(1, 254)
+	)
 }
 
 pub fn ipv6(rng: &mut Rng) -> String {
-	let g: Vec<u16> = (0..8).map(|_| if rng.chance(2, 5) { 0 } else { rng.below(65536) as u16 }).collect();
+	let g: Vec<u16> = (0..8)
+		.map(|_| {
+			if rng.chance(2, 5) {
+				0
+			} else {
+				rng.below(65536) as u16
+			}
+		})
+		.collect();
 	match rng.below(6) {
-		0 => g.iter().map(|x| format!("{:04x}", x)).collect::<Vec<_>>().join(":"),
-		1 => g.iter().map(|x| format!("{:X}", x)).collect::<Vec<_>>().join(":"),
+		0 => g
+			.iter()
+			.map(|x| format!("{:04x}", x))
+			.collect::<Vec<_>>()
+			.join(":"),
+		1 => g
+			.iter()
+			.map(|x| format!("{:X}", x))
+			.collect::<Vec<_>>()
+			.join(":"),
 		2 => format!("2001:db8::{:x}", rng.range(1, 65535)),
 		3 => format!("::ffff:{}", ipv4(rng)),
 		4 => format!("64:ff9b::{}", ipv4(rng)),
@@ -211,10 +242,24 @@ pub fn hook(name: &str, types: &[&str], args: Vec<String>) -> HookCfg {
 /// The standard hook set: one hook per challenge type and its clean twin, one post-operation hook.
 pub fn std_hooks() -> (Vec<HookCfg>, Vec<String>) {
 	let mut hs = vec![];
-	for (n, t) in [("http", "challenge-http-01"), ("dns", "challenge-dns-01"), ("tls", "challenge-tls-alpn-01")].iter() {
-		hs.push(hook(&format!("h-{}", n), &[t], chall_args(&format!("h-{}", n))));
+	for (n, t) in [
+		("http", "challenge-http-01"),
+		("dns", "challenge-dns-01"),
+		("tls", "challenge-tls-alpn-01"),
+	]
+	.iter()
+	{
+		hs.push(hook(
+			&format!("h-{}", n),
+			&[t],
+			chall_args(&format!("h-{}", n)),
+		));
 		let clean = format!("{}-clean", t);
-		hs.push(hook(&format!("h-{}-clean", n), &[clean.as_str()], chall_args(&format!("h-{}-clean", n))));
+		hs.push(hook(
+			&format!("h-{}-clean", n),
+			&[clean.as_str()],
+			chall_args(&format!("h-{}-clean", n)),
+		));
 	}
 	hs.push(hook("h-post", &["post-operation"], postop_args("h-post")));
 	let names = hs.iter().map(|h| h.name.clone()).collect();
